@@ -54,6 +54,8 @@ use vh::util::{read_ndjson, repo_fonts, NdWriter};
 mod brotli;
 #[path = "c09_written/cffb.rs"]
 mod cffb;
+#[path = "c09_written/cmapw.rs"]
+mod cmapw;
 #[path = "c09_written/coll.rs"]
 mod coll;
 #[path = "c09_written/derive.rs"]
@@ -323,7 +325,14 @@ fn cross_of(get: &dyn Fn(&str) -> Option<Vec<u8>>, built: (bool, bool, bool), sr
     x["headLsbBit"] = json!(bit1);
     x["lsbMismatch"] = json!(lsb_mismatch);
     x["srcLsbClean"] = json!(src_lsb_clean);
-    x["built"] = json!({"hmtx": built.0, "loca": built.1, "glyf": built.2});
+    // a cmap is serialised by the library only in a subset (prince::subset included); its raw structure is handed over
+    // for those (copied cmap tables can hold tens of thousands of entries and are the source's business)
+    let built_cmap = op == "subset";
+    x["built"] = json!({"hmtx": built.0, "loca": built.1, "glyf": built.2, "cmap": built_cmap});
+    x["cmapw"] = match get("cmap") {
+        Some(c) if built_cmap => cmapw::walk_cmap(&c),
+        _ => cmapw::no_cmap(),
+    };
     x["reload"] = no_reload();
     // derived maxima / minima against what they are derived from, on the output and on the source
     x["op"] = json!(op);
@@ -360,10 +369,15 @@ struct Rec {
     fam: BTreeMap<String, usize>,
     /// the prescribed facts of the collection member whose provider the next operations are run on
     cur_member: Option<coll::Want>,
+    /// when `keep` is set: (operation, bytes) of the last font a writing operation returned, as the input of a
+    /// further operation (multi-step sequences)
+    keep: bool,
+    last: Option<(String, Vec<u8>)>,
 }
 impl Rec {
     fn new(out: &str) -> Rec {
-        Rec { w: NdWriter::create(out), i: 0, refused: 0, panics: vec![], ops: BTreeMap::new(), fam: BTreeMap::new(), cur_member: None }
+        Rec { w: NdWriter::create(out), i: 0, refused: 0, panics: vec![], ops: BTreeMap::new(), fam: BTreeMap::new(), cur_member: None,
+              keep: false, last: None }
     }
     fn bump(&mut self, k: &str) {
         *self.fam.entry(k.to_string()).or_default() += 1;
@@ -376,6 +390,9 @@ impl Rec {
     fn written(&mut self, case: &str, op: &str, args: Value, bytes: &[u8], reload: bool, src: Option<&SrcFacts>) -> Vec<glyphs::Layout> {
         self.i += 1;
         let built = op == "subset" || op == "instance";
+        if self.keep {
+            self.last = Some((op.to_string(), bytes.to_vec()));
+        }
         match project_sfnt(bytes) {
             Some(p) => {
                 let get = sfnt_getter(bytes);
@@ -435,6 +452,11 @@ impl Rec {
                     let nm = i["name"].as_str().unwrap_or("?").trim_end_matches(|c: char| c.is_ascii_digit());
                     f.insert(format!("out:cff-index.{}.data={}", nm, dl));
                 }
+            }
+        }
+        if x["built"]["cmap"] == json!(true) && x["cmapw"]["walked"] == json!(true) {
+            for c in cmapw::classes(&x["cmapw"]) {
+                f.insert(format!("out:cmap.{}", c));
             }
         }
         for d in x["derived"].as_array().map(|a| a.as_slice()).unwrap_or(&[]) {
@@ -766,7 +788,15 @@ fn record_synth(rec: &mut Rec, rng: &mut StdRng, deep: bool) {
             lists.push(l);
         }
         for (li, ids) in lists.iter().enumerate() {
+            rec.keep = li == 2 || li == 3;
+            rec.last = None;
             do_subset(rec, &format!("{}/subset{}", name, li), &name, &prov, ids, "subset", &src);
+            if rec.keep {
+                // the subset (all glyphs reversed / composites first) as the source of a further subset
+                rec.bump("chain.plan.shapes-subset>subset");
+                chain_from_last(rec, &format!("{}/subset{}", name, li), &name);
+            }
+            rec.keep = false;
         }
         for (ai, api) in ["prince:unrestricted", "prince:macroman", "prince:omit", "prince:supplied"].iter().enumerate() {
             do_subset(rec, &format!("{}/{}", name, api), &name, &prov, &lists[(ai + 1) % lists.len()], api, &src);
@@ -793,9 +823,18 @@ fn record_synth(rec: &mut Rec, rng: &mut StdRng, deep: bool) {
         }
         let mut ok = 0;
         for (ci, c) in coords.iter().enumerate() {
+            rec.keep = ci == 1 || ci == 4;
+            rec.last = None;
             if do_instance(rec, &format!("{}/instance{}", name, ci), &name, &prov, &[Fixed::from(c.0), Fixed::from(c.1)], &src) {
                 ok += 1;
             }
+            if rec.keep {
+                // the instance (component offsets widened to words, long loca, numberOfHMetrics = numGlyphs) as the
+                // source of a subset and of whole_font
+                rec.bump("chain.plan.instance>subset");
+                chain_from_last(rec, &format!("{}/instance{}", name, ci), &name);
+            }
+            rec.keep = false;
         }
         if ok > 0 {
             rec.bump("var.synth-fonts-instanced");
@@ -837,6 +876,213 @@ fn record_synth(rec: &mut Rec, rng: &mut StdRng, deep: bool) {
 }
 
 
+
+// ---------------------------------------------------------------------------------------------
+// multi-step sequences: a font one writing operation returned as the input of the next
+// ---------------------------------------------------------------------------------------------
+
+/// Take the font the last operation returned (Rec::last), load it through FontData and run `subset` (all glyphs in
+/// another order: notdef, then the rest reversed - every composite is renumbered again) and `whole_font` on it. The
+/// source facts of the second step are measured by the independent readers on the first step's output.
+fn chain_from_last(rec: &mut Rec, case: &str, name: &str) {
+    let Some((first, bytes)) = rec.last.take() else { return };
+    let keep = rec.keep;
+    rec.keep = false;
+    let src = measure(&sfnt_getter(&bytes));
+    let fd = match guarded(|| ReadScope::new(&bytes).read::<FontData<'_>>().map_err(|e| format!("{:?}", e))) {
+        Outcome::Returned(Ok(fd)) => fd,
+        _ => {
+            rec.refused += 1;
+            rec.keep = keep;
+            return;
+        }
+    };
+    let provider = match guarded(|| fd.table_provider(0).map_err(|e| format!("{:?}", e))) {
+        Outcome::Returned(Ok(p)) => p,
+        _ => {
+            rec.refused += 1;
+            rec.keep = keep;
+            return;
+        }
+    };
+    let n = sfnt_getter(&bytes)("maxp").and_then(|m| be16(&m, 4)).unwrap_or(0);
+    if n > 0 && src.kind != "none" {
+        let mut ids = vec![0u16];
+        ids.extend((1..n).rev());
+        rec.bump(&format!("chain.{}>subset.requested", first));
+        do_subset(rec, &format!("{}+subset", case), &format!("{}>{}", name, first), &provider, &ids, "subset", &src);
+    }
+    let tags = provider.table_tags().unwrap_or_default();
+    rec.bump(&format!("chain.{}>whole_font.requested", first));
+    do_whole_font(rec, &format!("{}+whole", case), &format!("{}>{}", name, first), &provider, &tags);
+    rec.keep = keep;
+}
+
+// ---------------------------------------------------------------------------------------------
+// cmapb: subsets whose cmap lands on every structural class of the formats the library emits
+// ---------------------------------------------------------------------------------------------
+
+const CMAPB_GLYPHS: usize = 900;
+
+/// (char, glyph) pairs of the format 12 source: ASCII + five other Mac Roman characters (glyphs 1..99), 300 BMP
+/// characters 16 apart (100..399), 100 consecutive BMP characters (400..499), 20 consecutive astral (500..519), 20
+/// astral 8 apart (520..539), U+FFFD..FFFF (540..542); glyphs 543.. are not encoded.
+fn cmapb_pairs() -> Vec<(u32, u16)> {
+    let mut p: Vec<(u32, u16)> = vec![];
+    for g in 1..=94u32 {
+        p.push((0x20 + g, g as u16));
+    }
+    for (k, c) in [0xC4u32, 0xC5, 0xC7, 0xC9, 0xD1].iter().enumerate() {
+        p.push((*c, 95 + k as u16));
+    }
+    for g in 100..400u32 {
+        p.push((0x1000 + 16 * (g - 100), g as u16));
+    }
+    for g in 400..500u32 {
+        p.push((0x3000 + (g - 400), g as u16));
+    }
+    for g in 540..543u32 {
+        p.push((0xFFFD + (g - 540), g as u16));
+    }
+    for g in 500..520u32 {
+        p.push((0x1F600 + (g - 500), g as u16));
+    }
+    for g in 520..540u32 {
+        p.push((0x20000 + 8 * (g - 520), g as u16));
+    }
+    p.sort();
+    p
+}
+
+fn cmapb_glyphs(n: usize) -> Vec<glyph::GlyphRec> {
+    (0..n).map(|g| synth::simple(&[vec![(0, 0, true), (40 + (g % 9) as i16, 0, true), (0, 30 + (g % 5) as i16, true)]], &[])).collect()
+}
+
+fn record_cmapb(rec: &mut Rec, rng: &mut StdRng, deep: bool) {
+    let glyphs = cmapb_glyphs(CMAPB_GLYPHS);
+    let rev = |a: u16, b: u16| -> Vec<u16> { (a..b).rev().collect() };
+    let fwd = |a: u16, b: u16| -> Vec<u16> { (a..b).collect() };
+    // ---- source 1: one format 12 subtable (3/10) ------------------------------------------------------------
+    {
+        let pairs = cmapb_pairs();
+        let t = synth::build_tt(&glyphs, false, CMAPB_GLYPHS, 0, &[("cmap", vh::fontgen::cmap_format12(&pairs))]);
+        let name = "synth-cmapb-f12";
+        let src = measure(&getter_of(&t));
+        let prov = MapProvider { tables: named(&t).into_iter().collect() };
+        // (plan name, glyph ids after notdef)
+        let mut plans: Vec<(String, Vec<u16>)> = vec![
+            ("macroman.ascii".into(), fwd(1, 11)),
+            ("macroman.all-reversed".into(), rev(1, 100)),
+            ("macroman.none-encoded".into(), fwd(543, 548)),
+            // only Mac Roman characters kept, but the encoded glyph gets a new id above 255: format 0 cannot hold it
+            ("macroman.new-id>255".into(), [fwd(543, 843), vec![1, 2, 97]].concat()),
+            ("bmp.dense-in-order".into(), fwd(400, 500)),
+            ("bmp.dense-reversed".into(), rev(400, 500)),
+            // several glyphIdArray segments between delta segments (the second and later ones address the array
+            // past the entries of the earlier ones)
+            ("bmp.glyphIdArray-x3+delta".into(), [rev(400, 410), fwd(100, 104), rev(420, 430), fwd(440, 450), rev(460, 466), fwd(200, 202)].concat()),
+            ("bmp.holes-1-2-3".into(), vec![400, 402, 405, 409, 410, 414, 415, 416]),
+            ("bmp.ascii+sparse".into(), [fwd(1, 30), fwd(100, 110)].concat()),
+            ("bmp.touch-fffd-fffe".into(), vec![540, 541]),
+            ("bmp.touch-ffff".into(), vec![542]),
+            ("bmp.touch-fffd-ffff".into(), vec![540, 541, 542]),
+            ("bmp.touch-ffff-reversed".into(), vec![542, 541, 540, 499]),
+            ("astral.one-group".into(), fwd(500, 520)),
+            ("astral.reversed".into(), rev(500, 520)),
+            ("astral.sparse".into(), fwd(520, 540)),
+            ("astral.mixed".into(), [fwd(1, 5), fwd(100, 103), rev(410, 415), fwd(500, 503), fwd(520, 523), vec![542]].concat()),
+        ];
+        // k - 1 glyphs whose characters are 16 apart: k segments with the final one
+        let mut ks: Vec<usize> = vec![2, 3, 4, 5, 7, 8, 9, 15, 16, 17, 31, 32, 33, 255, 256, 257];
+        if deep {
+            ks.extend([6, 10, 63, 64, 65, 127, 128, 129, 200, 300, 301]);
+        }
+        for k in ks {
+            plans.push((format!("bmp.segCount={}", k), fwd(100, 100 + (k as u16 - 1))));
+        }
+        for _ in 0..(if deep { 40 } else { 6 }) {
+            let mut pool: Vec<u16> = (1..543).collect();
+            pool.shuffle(rng);
+            let k = rng.gen_range(1..120);
+            plans.push(("random".into(), pool[..k].to_vec()));
+        }
+        rec.keep = true;
+        for (pi, (plan, rest)) in plans.iter().enumerate() {
+            let ids: Vec<u16> = [vec![0u16], rest.clone()].concat();
+            let cls = plan.split('=').next().unwrap_or(plan).to_string();
+            rec.bump(&format!("cmapb.plan.{}", if cls == "bmp.segCount" { plan.clone() } else { cls }));
+            rec.last = None;
+            do_subset(rec, &format!("{}/{}#{}", name, plan, pi), name, &prov, &ids, "subset", &src);
+            // multi-step: the subset as the source of a further subset and of whole_font (its cmap is read back by
+            // the library and rebuilt from it)
+            if pi % 3 == 0 || plan.starts_with("bmp.glyphIdArray") || plan.starts_with("macroman.new-id") {
+                chain_from_last(rec, &format!("{}/{}#{}", name, plan, pi), name);
+            }
+            let api = ["prince:unrestricted", "prince:macroman", "prince:supplied"][pi % 3];
+            do_subset(rec, &format!("{}/{}#{}/{}", name, plan, pi, api), name, &prov, &ids, api, &src);
+        }
+        rec.keep = false;
+        rec.last = None;
+    }
+    // ---- source 1b (thorough): 4200 glyphs 8 characters apart - segment counts around the higher powers of two ----
+    if deep {
+        let n = 4200usize;
+        let wide = cmapb_glyphs(n);
+        let pairs: Vec<(u32, u16)> = (1..n as u32).map(|g| (0x100 + 8 * g, g as u16)).collect();
+        let t = synth::build_tt(&wide, true, 3, 0, &[("cmap", vh::fontgen::cmap_format12(&pairs))]);
+        let name = "synth-cmapb-wide";
+        let src = measure(&getter_of(&t));
+        let prov = MapProvider { tables: named(&t).into_iter().collect() };
+        for k in [511u16, 512, 513, 1023, 1024, 1025, 2047, 2048, 2049, 4095, 4096, 4097] {
+            let ids: Vec<u16> = (0..k).collect();
+            rec.bump(&format!("cmapb.plan.bmp.segCount={}", k));
+            do_subset(rec, &format!("{}/segCount={}", name, k), name, &prov, &ids, "subset", &src);
+        }
+    }
+    // ---- source 2: Windows Symbol (3/0) format 4, codes 0xF021 .. 0xF07E -------------------------------------
+    {
+        let seg = [(0xF021u16, 0xF07Eu16, Some(1u16))];
+        let cm = cmapw::cmap_table(&[(3, 0, cmapw::format4_subtable(&seg, &[]))]);
+        let t = synth::build_tt(&glyphs[..120], true, 60, 0, &[("cmap", cm), ("OS/2", vh::fontgen::os2_v4(0xF021, 0xF07E))]);
+        let name = "synth-cmapb-symbol";
+        let src = measure(&getter_of(&t));
+        let prov = MapProvider { tables: named(&t).into_iter().collect() };
+        for (pi, rest) in [fwd(1, 8), rev(1, 40), vec![5, 9, 10, 11, 60, 3], fwd(95, 100)].iter().enumerate() {
+            let ids: Vec<u16> = [vec![0u16], rest.clone()].concat();
+            rec.bump("cmapb.plan.symbol-source");
+            for api in ["subset", "prince:macroman", "prince:unrestricted"] {
+                do_subset(rec, &format!("{}/{}/{}", name, pi, api), name, &prov, &ids, api, &src);
+            }
+        }
+    }
+    // ---- source 3: two encoding records (0/3, 3/1) sharing one format 4 subtable that uses the glyphIdArray, and a
+    // format 12 subtable (3/10) behind them --------------------------------------------------------------------
+    {
+        // 0x41..0x4A -> glyphs 10, 9, .. 1 (array), 0x100..0x109 -> 20..29 (delta), 0x200..0x204 -> 40, 0 (hole), 42, 41, 44 (array)
+        let segs = [(0x41u16, 0x4Au16, None), (0x100, 0x109, Some(20u16)), (0x200, 0x204, None)];
+        let gids: Vec<u16> = [rev(1, 11), vec![40, 0, 42, 41, 44]].concat();
+        let f4 = cmapw::format4_subtable(&segs, &gids);
+        let mut pairs: Vec<(u32, u16)> = (0..10u32).map(|k| (0x41 + k, 10 - k as u16)).collect();
+        pairs.extend((0..10u32).map(|k| (0x100 + k, 20 + k as u16)));
+        pairs.extend([(0x200u32, 40u16), (0x202, 42), (0x203, 41), (0x204, 44), (0x1F600, 50), (0x1F601, 51)]);
+        let f12 = cmapw::format12_subtable(&pairs);
+        // both records of the shared subtable carry the same offset
+        let mut cm = cmapw::cmap_table(&[(0, 3, f4.clone()), (3, 1, vec![]), (3, 10, f12)]);
+        let off0 = vh::fontgen::be32(&cm, 8).unwrap();
+        cm[16..20].copy_from_slice(&off0.to_be_bytes());
+        let t = synth::build_tt(&glyphs[..64], false, 10, 0, &[("cmap", cm)]);
+        let name = "synth-cmapb-two-subtables";
+        let src = measure(&getter_of(&t));
+        let prov = MapProvider { tables: named(&t).into_iter().collect() };
+        for (pi, rest) in [fwd(1, 11), rev(20, 30), vec![44, 41, 42, 40, 3, 2, 1], vec![50, 51, 1], fwd(1, 52)].iter().enumerate() {
+            let ids: Vec<u16> = [vec![0u16], rest.clone()].concat();
+            rec.bump("cmapb.plan.two-subtables-source");
+            for api in ["subset", "prince:macroman"] {
+                do_subset(rec, &format!("{}/{}/{}", name, pi, api), name, &prov, &ids, api, &src);
+            }
+        }
+    }
+}
 
 // ---------------------------------------------------------------------------------------------
 // collections: every member, judged against its own tables and against what was prescribed for it
@@ -1197,7 +1443,12 @@ fn record_cff_bounds(rec: &mut Rec, deep: bool) {
         let prov = MapProvider { tables: named(&t).into_iter().collect() };
         let all: Vec<u16> = (0..n as u16).collect();
         rec.bump(&format!("cffb.plan.synth.glyphs={}", n));
+        rec.keep = true;
+        rec.last = None;
         do_subset(rec, &format!("{}/all", name), &name, &prov, &all, "subset", &src);
+        rec.bump(&format!("chain.plan.cff-subset-n{}>subset", n));
+        chain_from_last(rec, &format!("{}/all", name), &name);
+        rec.keep = false;
         do_subset(rec, &format!("{}/prince-all", name), &name, &prov, &all, "prince:unrestricted", &src);
         do_subset(rec, &format!("{}/prince-all-cid", name), &name, &prov, &all, "prince:unrestricted:cid", &src);
         let part: Vec<u16> = (0..n as u16).filter(|g| g % 3 != 1).collect();
@@ -1278,6 +1529,7 @@ fn record(seed: u64, max_fonts: usize, out: &str, all_woff2: bool) {
     record_synth(&mut rec, &mut rng, all_woff2);
     record_cff_bounds(&mut rec, all_woff2);
     record_collections(&mut rec, &mut rng, all_woff2);
+    record_cmapb(&mut rec, &mut rng, all_woff2);
 
     // ---- repository fonts: survey, then choose by measured features ---------------------------
     let mut paths = repo_fonts();
@@ -1533,6 +1785,29 @@ fn probe_isoadobe() {
     println!("subset of the source:  {:?}", subset(&prov, &[0, 1, 239]).map(|b| b.len()));
 }
 
+/// Reproduction of the finding "format 4: the final 0xFFFF segment is appended after a segment that already ends at
+/// 0xFFFF": a TrueType font whose cmap maps U+FFFD..U+FFFF to glyphs 1..3, subset on [0, 3] and on [0, 1, 2, 3].
+fn probe_ffff() {
+    let glyphs = cmapb_glyphs(8);
+    let pairs = [(0xFFFDu32, 1u16), (0xFFFE, 2), (0xFFFF, 3)];
+    let t = synth::build_tt(&glyphs, false, 8, 0, &[("cmap", vh::fontgen::cmap_format12(&pairs))]);
+    let prov = MapProvider { tables: named(&t).into_iter().collect() };
+    for ids in [vec![0u16, 3], vec![0, 1, 2, 3], vec![0, 1, 2]] {
+        let out = subset(&prov, &ids).expect("subset");
+        let cm = sfnt_getter(&out)("cmap").unwrap();
+        let w = cmapw::walk_cmap(&cm);
+        let st = &w["subtables"][0];
+        println!("subset {:?}: format {} startCode {} endCode {} idDelta {}", ids, st["format"], st["starts"], st["ends"], st["deltas"]);
+        let fd = ReadScope::new(&out).read::<FontData<'_>>().unwrap();
+        let mut font = Font::new(fd.table_provider(0).unwrap()).unwrap();
+        for ch in ['\u{FFFD}', '\u{FFFE}', '\u{FFFF}'] {
+            let (g, _) = font.lookup_glyph_index(ch, allsorts::font::MatchingPresentation::NotRequired, None);
+            print!("  U+{:04X} -> {}", ch as u32, g);
+        }
+        println!();
+    }
+}
+
 fn main() {
     let args: Vec<String> = std::env::args().collect();
     match args.get(1).map(|s| s.as_str()) {
@@ -1545,6 +1820,7 @@ fn main() {
         ),
         Some("survey") => survey(),
         Some("probe-isoadobe") => probe_isoadobe(),
+        Some("probe-ffff") => probe_ffff(),
         _ => {
             eprintln!("usage: c09_written replay <cases> <trace> | record <seed> <max_fonts> <trace> [all] | survey");
             std::process::exit(2);
